@@ -546,6 +546,9 @@ pub struct Plan {
     pub generated: u64,
     pub syscall_grammars: usize,
     pub rcomp_every: u64,
+    /// every n-th grammar of the fault-free product batches (1 = all; the
+    /// determinism self-test runs a slice)
+    pub product_stride: usize,
 }
 
 pub fn work(env: &Env, ctx: &Ctx, w: usize, nw: usize, plan: &Plan) -> Value {
@@ -592,7 +595,7 @@ pub fn work(env: &Env, ctx: &Ctx, w: usize, nw: usize, plan: &Plan) -> Value {
     //     `@vec`, over a terminal or a non-terminal element, LR and GLR.
     //     Type inference and action generation branch on exactly these
     //     shapes (and on their order).
-    for (k, text) in rule_shape_grammars().into_iter().enumerate() {
+    for (k, text) in rule_shape_grammars().into_iter().enumerate().filter(|(k, _)| k % plan.product_stride == 0) {
         for glr in [false, true] {
             counter += 1;
             if !mine(counter) {
@@ -616,7 +619,7 @@ pub fn work(env: &Env, ctx: &Ctx, w: usize, nw: usize, plan: &Plan) -> Value {
     //     separator modifier) x every kind of target (regex terminal, string
     //     terminal, inline string, non-terminal, the rule itself, EMPTY, STOP)
     //     x position in the production, over LR x {LALR, PAGER, RN} and GLR.
-    for (k, text) in reference_form_grammars().into_iter().enumerate() {
+    for (k, text) in reference_form_grammars().into_iter().enumerate().filter(|(k, _)| k % plan.product_stride == 0) {
         for sp in 0..4u8 {
             counter += 1;
             if !mine(counter) {
@@ -641,7 +644,7 @@ pub fn work(env: &Env, ctx: &Ctx, w: usize, nw: usize, plan: &Plan) -> Value {
     //     reduce/reduce conflicts on which every production-level, rule-level
     //     and terminal-level disambiguation meta-data combination is tried,
     //     over LR (prefer-shifts on/off) and GLR.
-    for (k, text) in meta_data_grammars(plan.thorough).into_iter().enumerate() {
+    for (k, text) in meta_data_grammars(plan.thorough).into_iter().enumerate().filter(|(k, _)| k % plan.product_stride == 0) {
         for sp in 0..3u8 {
             counter += 1;
             if !mine(counter) {
